@@ -21,7 +21,7 @@ CONFIG = {
               "sample_node returns exactly `amount` samples, each (up to literal order) a member of filter (okA A) (enum i); "
               "C07_valid - WF, in_range A, root not a true node (implied by n > 0; necessary: C07_true_root_refuted, the circuit [TrueN] over 0 features returns Some [] for amount 3), "
               "MCA > 0, choices_ok => Some L, length L = amount, every element in ModelsA (complete, feature order, model, contains A); "
-              "C07_unsat - None iff MCA = 0 or a literal with |l| > n; both under the explicit hypothesis exec_ok (preprocess + execute_query return MCA and leave countsA in the temps of non-true nodes), "
+              "C07_unsat - None iff MCA = 0 or a literal with |l| > n; both under the explicit hypothesis exec_ok (preprocess + execute_query return MCA and leave countsA in the temps of the REACHABLE non-true nodes - the root and the children of reachable nodes with a non-zero count; since the core ignores dead branches (F22) a temp inside a dead branch may be stale, the sampler never enters one; the node-level theorems carry the hypothesis Reach), "
               "which is now DISCHARGED: C07_exec_ok_holds (every WFQ circuit = check_wf, in-range A, Clean scratch, 0 < MCA; Proofs/ExecTemps.v), and the FINAL forms C07_valid_final (WFQ, 0 < n, in_range, Clean, "
               "0 < MCA, choices_ok => Some L of `amount` members of ModelsA) and C07_unsat_final (WFQ, Clean, non-zero literals: None iff MCA = 0 or a literal out of range) carry no execute_query hypothesis; "
               "C07_keeps_clean (the call re-establishes Clean). Found while discharging: exec_ok as stated (temps also when MCA = 0) is FALSE when the unsatisfiable-core shortcut answers 0 without recomputing "
